@@ -2342,6 +2342,22 @@ theorem wrap_marked (T : PrecTable) (linelen maxlines : Nat) (lb : Bool) (e : Ex
 /-- the text of a result as the reader sees it, markers included -/
 def visible (items : List Item) : List Char := items.flatMap Item.raw
 
+/-- non-vacuity of `wrap_marked`: a complete wrapped result (two continuations), a cut one with line
+breaks allowed, and a cut one in summary mode (three characters trimmed for the marker) -/
+example :
+    (match colorize LT (Cfg.make 4 2 true)
+        (.binary .mult (.binary .add (.constInt 111) (.constInt 222)) (.constInt 333)) with
+      | .ok r => (r.isComplete, visible r.items, unwrap r.items)
+      | .error _ => (false, [], [])) =
+      (true, "(111+↵\n222)*3↵\n33".toList, "(111+222)*333".toList) ∧
+    (match colorize LT (Cfg.make 6 1 true) (.list [.constInt 1, .constStr "ab".toList]) with
+      | .ok r => (r.isComplete, visible r.items)
+      | .error _ => (true, [])) = (false, "[1, 'a↵\n...".toList) ∧
+    (match colorize LT (Cfg.make 9 1 false) (.list [.constInt 1, .constStr "abcdef".toList]) with
+      | .ok r => (r.isComplete, visible r.items)
+      | .error _ => (true, [])) = (false, "[1, 'a...".toList) := by
+  refine ⟨?_, ?_, ?_⟩ <;> decide +kernel
+
 theorem dropPair_id (a b : Char) (s : List Char) (h : a ∉ s) : dropPair a b s = s := by
   induction s using dropPair.induct a b with
   | case1 => rfl
